@@ -48,4 +48,10 @@ CHECKS = {
         "text": "Generated unit pairs with integer, reciprocal and general rational ratios x same-signedness rep pairs: the six comparisons, <=> (C++20 build), +, - and % run on exhaustive 8-bit operands, threshold/equal-magnitude boundaries and random values; every in-domain result is compared with the exact rational order / sum / difference / truncated remainder in the independently spelled common unit; floating reps judged with an ulp budget.",
         "note": "Trusted: 128-bit oracle in harness/vf_mixed.hh; which pairs compile follows the C06 policy model and is corrected by the compiler's verdict.",
     },
+    "C06": {
+        "module": ("vf.props.c06", "C06"), "engine": "planeC+planeA",
+        "technique": "compile-outcome monitoring: static_assert(trait == documented predicate) probes with per-line diagnostic attribution and isolation re-check; runtime execution of every permitted integral conversion on [-2147, 2147] under sanitizer traps",
+        "text": "For all pairs of the 10 arithmetic reps and a ratio grid straddling each rep's 2147-threshold and maximum (including magnitudes no type can hold and irrational ratios), is_convertible / is_constructible / overload resolution / common_type are asked inside static_asserts against the documented predicate, so a wrong answer and a hard error are both observed; copy-initialisation, unit-only .as/.in and mixed comparison/addition are probed for accept/reject; every permitted integral conversion is then executed for all representable x in [-2147, 2147] and compared with x*k.",
+        "note": "Trusted: the predicate as written in the property statement (vf/props/c06.py::permitted), gcc/clang diagnostic attribution (each disagreement re-compiled alone). Totality is a compile-time fact: observed on the compiler's execution, not inside an Au execution.",
+    },
 }
